@@ -54,6 +54,14 @@ def build_harness(profile="dev"):
 def _build_harness(profile):
     if profile in _built:
         return _built[profile]
+    # developer convenience for background sweeps on a frozen copy of the repository (vp run --with-repo):
+    # SFV_REPO points the harness' path dependency at that copy.  Registered commands never set it.
+    alt = os.environ.get("SFV_REPO")
+    if alt and os.path.abspath(alt) != "/repo":
+        ct = os.path.join(HARNESS, "Cargo.toml")
+        txt = open(ct).read()
+        if 'path = "/repo"' in txt:
+            open(ct, "w").write(txt.replace('path = "/repo"', 'path = "%s"' % os.path.abspath(alt)))
     cmd = ["cargo", "build", "--offline", "--quiet"] + (["--release"] if profile == "release" else [])
     env = {"CARGO_NET_OFFLINE": "true", "RUSTFLAGS": os.environ.get("SFV_RUSTFLAGS", "")}
     t0 = time.time()
